@@ -161,24 +161,113 @@ def clausesOf (s : St) (f : String) (n : Nat) : List Clause :=
   | some p => p.clauses
   | none => []
 
-theorem assertStep_horn (s : St) (c : Term) (hc : clauseS fl c = true) :
-    assertStep s c =
-      setProc s (clauseOf c).name (clauseOf c).arity
-        { (lookupProc s (clauseOf c).name (clauseOf c).arity).getD { dynamic := true } with
-          clauses := ((lookupProc s (clauseOf c).name (clauseOf c).arity).getD { dynamic := true }).clauses ++ [clauseOf c] } := by
-  unfold assertStep
-  rw [(clauseOf_spec c (clauseC_of_S hc)).1]
+theorem Forall2.map_right {α β γ : Type} {R : α → γ → Prop} {f : β → γ} {as : List α} {bs : List β}
+    (h : Forall2 (fun a b => R a (f b)) as bs) : Forall2 R as (bs.map f) := by
+  induction h with
+  | nil => exact .nil
+  | cons hd _ ih => exact .cons hd ih
 
-theorem clauseOf_key (c : Term) (hc : clauseS fl c = true) :
-    ((clauseOf c).name, (clauseOf c).arity) = headKey c := by
-  obtain ⟨h1, h2⟩ := (clauseOf_spec c (clauseC_of_S hc)).2.name
+theorem Forall2.flatMap {α β γ : Type} {R : β → γ → Prop} {f : α → List β} {g : α → List γ} :
+    ∀ (l : List α), (∀ a ∈ l, Forall2 R (f a) (g a)) → Forall2 R (l.flatMap f) (l.flatMap g)
+  | [], _ => .nil
+  | a :: l, h => by
+    rw [List.flatMap_cons, List.flatMap_cons]
+    exact (h a (by simp)).append (Forall2.flatMap l (fun a' ha' => h a' (by simp [ha'])))
+
+theorem Forall2.mem_left {α β : Type} {R : α → β → Prop} {as : List α} {bs : List β} (h : Forall2 R as bs)
+    {a : α} (ha : a ∈ as) : ∃ b ∈ bs, R a b := by
+  induction h with
+  | nil => simp at ha
+  | cons hd _ ih =>
+    rcases List.mem_cons.1 ha with rfl | ha
+    · exact ⟨_, by simp, hd⟩
+    · obtain ⟨b, hb, hr⟩ := ih ha
+      exact ⟨b, by simp [hb], hr⟩
+
+theorem disjuncts_ne_nil (b : Term) : SLD.disjuncts b ≠ [] := by
+  fun_induction SLD.disjuncts b <;> simp
+
+/-- the clauses a clause term compiles to: one per alternative of its body -/
+def compiled (c : Term) : List Clause :=
+  match compile (toRep c) with
+  | .ok cs => cs
+  | _ => []
+
+/-- **a clause of the fragment** compiles to one clause per alternative of its body, each related to
+    the clause `Head :- Alternative` the reference stores -/
+theorem compile_split (c : Term) (hc : clauseS fl c = true) :
+    compile (toRep c) = .ok (compiled c) ∧
+    Forall2 (fun cl r => CRel fl cl (SLD.headBody r).1 (SLD.headBody r).2) (compiled c) (SLD.splitClause c) := by
+  by_cases hr : ∃ h b, c = .app ":-" (.cons h (.cons b .nil))
+  · obtain ⟨h, b, rfl⟩ := hr
+    simp only [clauseS, SLD.headBody, Bool.and_eq_true, wfT, wfAs, Bool.and_true] at hc
+    obtain ⟨⟨⟨hwh, hwb⟩, hh⟩, hb⟩ := hc
+    obtain ⟨cs, hcomp, hrel⟩ := rule_layouts (fl := fl) h b hwh hwb (headOK_of_horn hh)
+      (by simpa [dbodyS, List.all_eq_true] using hb)
+    have hcs : compiled (.app ":-" (.cons h (.cons b .nil))) = cs := by simp [compiled, hcomp]
+    rw [hcs]
+    refine ⟨hcomp, ?_⟩
+    simp only [SLD.splitClause, SLD.headBody]
+    exact Forall2.map_right hrel
+  · have hne : ∀ h b, c ≠ .app ":-" (.cons h (.cons b .nil)) := fun h b heq => hr ⟨h, b, heq⟩
+    have hhb : SLD.headBody c = (c, .atom "true") := by
+      unfold SLD.headBody
+      split
+      · exact absurd rfl (hne _ _)
+      · rfl
+    have hcC : clauseC fl c = true := by
+      simp only [clauseS, hhb, Bool.and_eq_true] at hc
+      simp only [clauseC, hhb, Bool.and_eq_true]
+      refine ⟨⟨hc.1.1, headOK_of_horn hc.1.2⟩, ?_⟩
+      simp [bodyS, SLD.conjuncts, SLD.wrapVar, goalS, stepGoal, hornGoal]
+    obtain ⟨cl, hargs, hcomp, hl, hcode⟩ := horn_fact_layout c hcC hne
+    have hcs : compiled c = [cl] := by simp [compiled, hcomp]
+    rw [hcs]
+    refine ⟨hcomp, ?_⟩
+    have hsp : SLD.splitClause c = [SLD.rule c (.atom "true")] := by
+      simp [SLD.splitClause, hhb, SLD.disjuncts]
+    rw [hsp]
+    exact .cons (.fact hl hcode) .nil
+
+theorem split_head {c r : Term} (h : r ∈ SLD.splitClause c) : (SLD.headBody r).1 = (SLD.headBody c).1 := by
+  simp only [SLD.splitClause, List.mem_map] at h
+  obtain ⟨dj, _, rfl⟩ := h
+  rfl
+
+theorem compiled_key (c : Term) (hc : clauseS fl c = true) :
+    ∀ cl ∈ compiled c, (cl.name, cl.arity) = headKey c := by
+  intro cl hcl
+  obtain ⟨r, hr, hcr⟩ := (compile_split c hc).2.mem_left hcl
+  obtain ⟨h1, h2⟩ := hcr.name
+  rw [split_head hr] at h1 h2
   simp [headKey, h1, h2]
 
-/-- **the table after asserting a Horn program**: for every predicate indicator, whether it is
+theorem compiled_ne (c : Term) (hc : clauseS fl c = true) : compiled c ≠ [] := by
+  intro h
+  have := (compile_split c hc).2.length_eq
+  rw [h] at this
+  simp only [List.length_nil, SLD.splitClause, List.length_map] at this
+  exact disjuncts_ne_nil _ (List.length_eq_zero_iff.1 this.symm)
+
+theorem assertStep_S (s : St) (c : Term) (hc : clauseS fl c = true) :
+    assertStep s c =
+      setProc s (headKey c).1 (headKey c).2
+        { (lookupProc s (headKey c).1 (headKey c).2).getD { dynamic := true } with
+          clauses := ((lookupProc s (headKey c).1 (headKey c).2).getD { dynamic := true }).clauses ++ compiled c } := by
+  unfold assertStep
+  rw [(compile_split c hc).1]
+  cases hcs : compiled c with
+  | nil => exact absurd hcs (compiled_ne c hc)
+  | cons c1 cs =>
+    have := compiled_key c hc c1 (by rw [hcs]; simp)
+    simp only [Prod.ext_iff] at this
+    simp only [this.1, this.2]
+
+/-- **the table after asserting a program**: for every predicate indicator, whether it is
     defined and with which clauses, in terms of the program clauses with that head, in order -/
 theorem foldl_assert (f : String) (n : Nat) : ∀ (prog : List Term) (s : St), (∀ c ∈ prog, clauseS fl c = true) →
     clausesOf (prog.foldl assertStep s) f n =
-      clausesOf s f n ++ (prog.filter (fun c => decide (headKey c = (f, n)))).map clauseOf ∧
+      clausesOf s f n ++ (prog.filter (fun c => decide (headKey c = (f, n)))).flatMap compiled ∧
     ((lookupProc (prog.foldl assertStep s) f n).isSome =
       ((lookupProc s f n).isSome || !(prog.filter (fun c => decide (headKey c = (f, n)))).isEmpty))
   | [], s, _ => by simp
@@ -186,18 +275,15 @@ theorem foldl_assert (f : String) (n : Nat) : ∀ (prog : List Term) (s : St), (
     have hc := h c (by simp)
     obtain ⟨ih1, ih2⟩ := foldl_assert f n prog (assertStep s c) (fun c' hc' => h c' (by simp [hc']))
     rw [List.foldl_cons, ih1, ih2]
-    have hkey := clauseOf_key c hc
-    rw [assertStep_horn s c hc]
+    rw [assertStep_S s c hc]
     by_cases hk : headKey c = (f, n)
-    · have hk' : ((clauseOf c).name, (clauseOf c).arity) = (f, n) := by rw [hkey, hk]
-      simp only [Prod.mk.injEq] at hk'
-      obtain ⟨hk1, hk2⟩ := hk'
+    · have hk1 : (headKey c).1 = f := by rw [hk]
+      have hk2 : (headKey c).2 = n := by rw [hk]
       rw [hk1, hk2]
       simp only [clausesOf, lookupProc_setProc, if_true, List.filter_cons, hk, decide_true,
-        List.map_cons, Option.isSome_some, Bool.true_or, List.isEmpty_cons, Bool.not_false, Bool.or_true, and_true]
+        List.flatMap_cons, Option.isSome_some, Bool.true_or, List.isEmpty_cons, Bool.not_false, Bool.or_true, and_true]
       cases lookupProc s f n <;> simp
-    · have hk' : ¬ (f, n) = ((clauseOf c).name, (clauseOf c).arity) := by
-        rw [hkey]; exact fun e => hk e.symm
+    · have hk' : ¬ (f, n) = ((headKey c).1, (headKey c).2) := fun e => hk e.symm
       simp only [clausesOf, lookupProc_setProc, if_neg hk', List.filter_cons, hk, decide_false]
       simp
 
@@ -215,7 +301,7 @@ theorem lookup_user (prog : List Term) (hp : ∀ c ∈ prog, clauseS fl c = true
     (hu : userPred f n = true) :
     (lookupProc (initState prog none) f n = none ↔ prog.filter (fun c => decide (headKey c = (f, n))) = []) ∧
     (∀ p, lookupProc (initState prog none) f n = some p →
-      p.clauses = (prog.filter (fun c => decide (headKey c = (f, n)))).map clauseOf) := by
+      p.clauses = (prog.filter (fun c => decide (headKey c = (f, n)))).flatMap compiled) := by
   have hboot : lookupProc { bootState with cancelAt := none } f n = none := by
     simp only [userPred, Bool.and_eq_true, Option.isNone_iff_eq_none] at hu
     rw [lookupProc_cancel]; exact hu.2
@@ -253,7 +339,7 @@ theorem lookup_other (prog : List Term) (hp : ∀ c ∈ prog, clauseS fl c = tru
     cases this
   obtain ⟨h1, h2⟩ := foldl_assert f n prog { bootState with cancelAt := none } hp
   rw [initState_eq]
-  simp only [hnil, List.map_nil, List.append_nil, List.isEmpty_nil, Bool.not_true, Bool.or_false,
+  simp only [hnil, List.flatMap_nil, List.append_nil, List.isEmpty_nil, Bool.not_true, Bool.or_false,
     lookupProc_cancel] at h1 h2
   -- same clauses, same definedness: and the Proc record itself is untouched — go through the fold again
   clear h1 h2
@@ -270,9 +356,8 @@ theorem lookup_other (prog : List Term) (hp : ∀ c ∈ prog, clauseS fl c = tru
         intro hk
         simp [hk] at hnil
       rw [List.foldl_cons, ih (assertStep s c) (fun c' hc' => hp c' (by simp [hc']))
-        (by simpa [List.filter_cons, hk] using hnil), assertStep_horn s c hc, lookupProc_setProc]
-      have hk' : ¬ (f, n) = ((clauseOf c).name, (clauseOf c).arity) := by
-        rw [clauseOf_key c hc]; exact fun e => hk e.symm
+        (by simpa [List.filter_cons, hk] using hnil), assertStep_S s c hc, lookupProc_setProc]
+      have hk' : ¬ (f, n) = ((headKey c).1, (headKey c).2) := fun e => hk e.symm
       rw [if_neg hk']
   rw [key prog _ hp hnil, lookupProc_cancel]
 
@@ -280,10 +365,6 @@ theorem lookup_other (prog : List Term) (hp : ∀ c ∈ prog, clauseS fl c = tru
 
 /-- the clause as the reference stores it: `Head :- Body` -/
 def ruleOf (c : Term) : Term := SLD.rule (SLD.headBody c).1 (SLD.headBody c).2
-
-theorem splitClause_horn (c : Term) (hc : clauseS fl c = true) : SLD.splitClause c = [ruleOf c] := by
-  simp only [clauseS, Bool.and_eq_true] at hc
-  simp [SLD.splitClause, disjuncts_horn _ hc.2, ruleOf]
 
 theorem headBody_rule (h b : Term) : SLD.headBody (SLD.rule h b) = (h, b) := rfl
 
@@ -309,18 +390,37 @@ theorem sameProc_library (f : String) (n : Nat) (hf : f ∉ reservedNames) :
   · rw [sameProc_of_functor (g := "append") (as := _) rfl, h2]; simp
   · rw [sameProc_of_functor (g := "append") (as := _) rfl, h2]; simp
 
-/-- the reference's clauses for a user predicate: the program clauses with that head, in order -/
+theorem ruleOf_split {c r : Term} (h : r ∈ SLD.splitClause c) : ruleOf r = r := by
+  simp only [SLD.splitClause, List.mem_map] at h
+  obtain ⟨dj, _, rfl⟩ := h
+  rfl
+
+theorem sameProc_split {f : String} {n : Nat} {c r : Term} (h : r ∈ SLD.splitClause c) :
+    SLD.sameProc f n r = SLD.sameProc f n c := by
+  simp only [SLD.sameProc, split_head h]
+
+/-- the reference's clauses for a user predicate: the alternatives of the program clauses with that
+    head, in order -/
 theorem sld_filter (prog : List Term) (hp : ∀ c ∈ prog, clauseS fl c = true) (f : String) (n : Nat)
     (hf : f ∉ reservedNames) :
     (prog.flatMap SLD.splitClause ++ SLD.library).filter (SLD.sameProc f n) =
-      (prog.filter (fun c => decide (headKey c = (f, n)))).map ruleOf := by
+      (prog.filter (fun c => decide (headKey c = (f, n)))).flatMap SLD.splitClause := by
   rw [List.filter_append, sameProc_library f n hf, List.append_nil]
   induction prog with
   | nil => rfl
   | cons c prog ih =>
     have hc := hp c (by simp)
-    rw [List.flatMap_cons, List.filter_append, ih (fun c' hc' => hp c' (by simp [hc'])),
-      splitClause_horn c hc, List.filter_cons, List.filter_cons, sameProc_ruleOf, sameProc_horn f n c hc]
+    rw [List.flatMap_cons, List.filter_append, ih (fun c' hc' => hp c' (by simp [hc'])), List.filter_cons]
+    have hsp : (SLD.splitClause c).filter (SLD.sameProc f n) =
+        if headKey c = (f, n) then SLD.splitClause c else [] := by
+      by_cases hk : headKey c = (f, n)
+      · rw [if_pos hk, List.filter_eq_self]
+        intro r hr
+        rw [sameProc_split hr, sameProc_horn f n c hc]; simpa using hk
+      · rw [if_neg hk, List.filter_eq_nil_iff]
+        intro r hr
+        rw [sameProc_split hr, sameProc_horn f n c hc]; simpa using hk
+    rw [hsp]
     by_cases hk : headKey c = (f, n) <;> simp [hk]
 
 end PrologVerif.Refine
